@@ -214,6 +214,56 @@ def r_extension_filter(r, prog):
     r.floor(5)
 
 
+
+def r_directory_walk_once(r, prog):
+    """The walk below a reference directory follows symbolic links; it ends (and finds every file once) because every directory is
+    entered at most once per walk: its canonical path is looked up in, then added to, the set of directories already walked."""
+    import guards as _g
+    f = prog.fn('slicec::utils::file_util::find_slice_files_in_directory')
+    cont = [b for b in branches_on_call(f, lambda c: c.name() == 'contains')]
+    push = [c for c in f.calls() if c.name() == 'push' and not f.blocks[c.bb].get('cleanup')]
+    rd = [c for c in f.calls() if c.name() == 'read_dir' and not f.blocks[c.bb].get('cleanup')]
+    rec = [c for c in f.calls() if c.name() == 'find_slice_files_in_path' and not f.blocks[c.bb].get('cleanup')]
+    if not (rd and rec):
+        raise AnchorMissing('read_dir / recursion in find_slice_files_in_directory')
+    good = False
+    for b in cont:
+        key = vexpr(f, b['call'].args[1])
+        if 'canonicalize(arg1)' in key and all(f.edge_dominates(b['bb'], b['false'], c.bb) for c in rd + rec):
+            ps = [p_ for p_ in push if vexpr(f, p_.args[1]) == key and vexpr(f, p_.args[0]) == vexpr(f, b['call'].args[0]) and f.edge_dominates(b['bb'], b['false'], p_.bb) and all(f.dominates(p_.bb, c.bb) for c in rec)]
+            if ps:
+                good = True
+    if good:
+        r.ok('a directory is listed and descended into only if its canonical path was not walked before, and it is recorded before the descent')
+    else:
+        r.finding('directory-walk-unbounded', f.span, 'find_slice_files_in_directory descends without first checking and recording the canonical path of the directory: links that lead back to an ancestor are followed again at every level (the walk does not end in practice)')
+    # the set is created per top-level path and handed down unchanged
+    top = prog.fn('slicec::utils::file_util::find_slice_files')
+    tc = [c for c in top.calls() if c.name() == 'find_slice_files_in_path' and not top.blocks[c.bb].get('cleanup')]
+    mid = prog.fn('slicec::utils::file_util::find_slice_files_in_path')
+    mc = [c for c in mid.calls() if c.name() == 'find_slice_files_in_directory' and not mid.blocks[c.bb].get('cleanup')]
+    if len(tc) == 1 and vexpr(top, tc[0].args[1]) == 'new()' and len(mc) == 1 and vexpr(mid, mc[0].args[1]) == 'arg2' and all(vexpr(f, c.args[1]) == 'arg2' for c in rec):
+        r.ok('the set of walked directories starts empty for every listed path and is the same set all the way down')
+    else:
+        r.finding('walked-set-not-threaded', top.span, 'the set of walked directories is not created per listed path and passed down unchanged')
+    r.floor(2)
+
+
+def r_unusable_paths_reported(r, prog):
+    """A listed path is either reported or walked: the walk is reached only for paths that are files or directories."""
+    f = prog.fn('slicec::utils::file_util::find_slice_files')
+    call = [c for c in f.calls() if c.name() == 'find_slice_files_in_path' and not f.blocks[c.bb].get('cleanup')]
+    nx = [c for c in f.calls() if c.name() == 'next' and not f.blocks[c.bb].get('cleanup')]
+    if len(call) != 1 or not nx:
+        raise AnchorMissing('the walk call in find_slice_files')
+    lp = loop_of(f, call[0].bb)
+    trues = [b['true'] for b in branches_on_call(f, lambda c: c.name() in ('is_file', 'is_dir')) if b['true'] != b['false']]
+    if lp is not None and trues and must_pass(f, lp[0], [call[0].bb], trues, within=lp[1]):
+        r.ok('a listed path reaches the walk only if it is a file or a directory; anything else has been reported and skipped')
+    else:
+        r.finding('unusable-path-dropped-silently', call[0].span, 'find_slice_files can hand a path that is neither a file nor a directory to the walk, which ignores it: such a path (a device, pipe, socket) is dropped without a diagnostic')
+    r.floor(1)
+
 def run(ctx):
     prog = ctx.prog
     ctx.run_rule('C17.1', 'T4', 'sources first; references only if not present; read in list order; is_source from the FilePath', r_sources_before_references, prog)
@@ -221,3 +271,5 @@ def run(ctx):
     ctx.run_rule('C17.3', 'T3', 'I/O errors become diagnostics: no io::Result is discarded', r_io_errors_are_diagnostics, prog)
     ctx.run_rule('C17.4', 'T2', 'nothing is parsed after a resolution error (phase gating)', gating.r_phase_gating, prog)
     ctx.run_rule('C17.5', 'T1', 'extension filter and directory descent', r_extension_filter, prog)
+    ctx.run_rule('C17.6', 'T8', 'every directory below a reference path is walked once (terminates on link cycles)', r_directory_walk_once, prog)
+    ctx.run_rule('C17.7', 'T3', 'a listed path is reported or walked, never dropped', r_unusable_paths_reported, prog)
